@@ -74,6 +74,33 @@ class VRT:
             return f(fn, pa, pd)
         return call
 
+    def kernel_args(self, name, ints, dbls=(), floats_at=()):
+        """argument blocks for vrt_call2 (same conventions as kernel())"""
+        import struct
+        a = np.zeros(12, np.int64)
+        keep = []
+        for k, v in enumerate(ints):
+            if isinstance(v, np.ndarray):
+                keep.append(v)
+                a[k] = v.ctypes.data
+            else:
+                a[k] = int(v)
+        d = np.zeros(8, np.float64)
+        for k, v in enumerate(dbls):
+            d[k] = struct.unpack("<d", struct.pack("<fI", float(v), 0))[0] if k in floats_at else float(v)
+        fn = ctypes.cast(getattr(self.L, name), ctypes.c_void_p)
+        return (fn, a, d, keep)
+
+    def two_callers(self, A, B):
+        """zero-argument callable running the two prepared calls as two concurrent logical threads"""
+        L = self.L
+        L.vrt_call2.restype = ctypes.c_long
+        L.vrt_call2.argtypes = [ctypes.c_void_p] * 6
+
+        def call(_k=(A, B)):
+            return L.vrt_call2(A[0], A[1].ctypes.data, A[2].ctypes.data, B[0], B[1].ctypes.data, B[2].ctypes.data)
+        return call
+
     # -- filter
     def set_filter(self, words):
         self.filter = set(int(w) for w in words)
